@@ -173,6 +173,18 @@ func victimMain(spec string) {
 						_ = syscall.Setrlimit(syscall.RLIMIT_FSIZE, &next)
 					}
 				}
+			case c.Fault == "enospc":
+				// a real out-of-space error from write(2) at offset 0: the temporary name of the chunk file is a symbolic link
+				// to /dev/full (the writer opens it without O_EXCL/O_NOFOLLOW and unlinks it as its normal clean-up)
+				dirs, _ := filepath.Glob(filepath.Join(root, "*", ".id"))
+				if len(dirs) != 1 {
+					fmt.Println("expected one queue directory, found", dirs)
+					os.Exit(3)
+				}
+				if err := os.Symlink("/dev/full", filepath.Join(filepath.Dir(dirs[0]), chunkID(i)+util.TempFileSuffix)); err != nil {
+					fmt.Println("symlink failed", err)
+					os.Exit(3)
+				}
 			case strings.HasPrefix(c.Fault, "kill:"):
 				step := strings.TrimPrefix(c.Fault, "kill:")
 				util.KillPointForVerif = func(s string, filename string) {
@@ -235,7 +247,7 @@ func runCase(c Case) vh.Result {
 		panic("victim could not set up the fault: " + out.String())
 	}
 	size := c.Sizes[c.Target]
-	midWrite := c.Fault == "handback-at-stop" || c.Fault == "fsize-steps" || c.Fault == "damage:empty" || (strings.HasPrefix(c.Fault, "fsize") && c.K > 0 && c.K < size) || c.Fault == "kill:after-open" || c.Fault == "kill:after-write" || c.Fault == "kill:after-close"
+	midWrite := c.Fault == "handback-at-stop" || c.Fault == "enospc" || c.Fault == "fsize-steps" || c.Fault == "damage:empty" || (strings.HasPrefix(c.Fault, "fsize") && c.K > 0 && c.K < size) || c.Fault == "kill:after-open" || c.Fault == "kill:after-write" || c.Fault == "kill:after-close"
 	res.NonTrivial = midWrite
 	res.Classes = append(res.Classes, "fault-"+c.Fault)
 	if died {
@@ -349,7 +361,7 @@ loop:
 }
 
 // (handback-at-stop is generated separately: it has its own shape of case)
-var faults = []string{"fsize-error", "fsize-kill", "fsize-killmid", "damage:empty", "kill:after-open", "kill:after-write", "kill:after-close", "kill:after-rename", "fsize-steps"}
+var faults = []string{"fsize-error", "fsize-kill", "fsize-killmid", "damage:empty", "kill:after-open", "kill:after-write", "kill:after-close", "kill:after-rename", "fsize-steps", "enospc"}
 
 func genCase(t *rapid.T) Case {
 	var c Case
@@ -427,7 +439,7 @@ func enumFaults(yield func(Case) bool) {
 					}
 				}
 			}
-			for _, f := range faults[3:8] { // damage:empty and the kill points
+			for _, f := range append(append([]string{}, faults[3:8]...), "enospc") { // damage:empty, the kill points, ENOSPC
 				idx++
 				if vh.NShards > 1 && idx%vh.NShards != vh.Shard {
 					continue
@@ -446,6 +458,6 @@ func enumFaults(yield func(Case) bool) {
 func TestC04Crash(t *testing.T) {
 	vh.Run(t, vh.Spec[Case]{
 		Name: "crash", Gen: genCase, Run: runCase, Quick: 40, Thorough: 400, Enum: enumFaults, ShrinkSeconds: 10,
-		Rule: "a victim process spills 2-6 chunks through the real hybrid buffer (memory window 2) and one chunk file write suffers: RLIMIT_FSIZE=k with SIGXFSZ ignored (short write, then EFBIG), RLIMIT_FSIZE=k with the default disposition (the Go runtime does not let SIGXFSZ kill the process, so this is the same error path), RLIMIT_FSIZE=k plus SIGKILL right after the partial write (killed mid-write at offset k), or SIGKILL at kill point after-open/after-write/after-close/after-rename (hook H1); k enumerated 0..size for sizes {1,7,48} [quick] / 1..48 [thorough] x affected chunk first/middle/last, rapid adds sizes up to 200 KB; then a restart on the same directory with a strict consumer; oracle: every delivered chunk byte-identical to a produced one, the affected chunk intact or absent (and counted when the victim survived), every other persisted chunk delivered; non-trivial = write stopped strictly inside the chunk or a kill between open and completion",
+		Rule: "a victim process spills 2-6 chunks through the real hybrid buffer (memory window 2) and one chunk file write suffers: RLIMIT_FSIZE=k with SIGXFSZ ignored (short write, then EFBIG), RLIMIT_FSIZE=k with the default disposition (the Go runtime does not let SIGXFSZ kill the process, so this is the same error path), RLIMIT_FSIZE=k plus SIGKILL right after the partial write (killed mid-write at offset k), or SIGKILL at kill point after-open/after-write/after-close/after-rename (hook H1), or a real ENOSPC from write(2) (temporary name pre-created as a symbolic link to /dev/full); k enumerated 0..size for sizes {1,7,48} [quick] / 1..48 [thorough] x affected chunk first/middle/last, rapid adds sizes up to 200 KB; then a restart on the same directory with a strict consumer; oracle: every delivered chunk byte-identical to a produced one, the affected chunk intact or absent (and counted when the victim survived), every other persisted chunk delivered; non-trivial = write stopped strictly inside the chunk or a kill between open and completion",
 	})
 }
